@@ -168,6 +168,15 @@ def run(case):
             else:
                 src = df0.copy()
             ok, m = call(out, "emmotl2stopgap", lambda: cryomotl.emmotl2stopgap(src, output_motl_path=star_path, update_coordinates=upd, reset_index=reset))
+            if ok:
+                # the same conversion without an output file: the returned list is the same list (updated coordinates included)
+                src2 = src if isinstance(src, str) else df0.copy()
+                ok_m, m_mem = call(out, "emmotl2stopgap(no output)", lambda: cryomotl.emmotl2stopgap(src2, update_coordinates=upd, reset_index=reset))
+                if ok_m:
+                    out.label("emmotl2stopgap_without_output_file")
+                    g1, g2 = m_mem.df[C].to_numpy(dtype=float), m.df[C].to_numpy(dtype=float)
+                    if out.check(g1.shape == g2.shape, "memory:row_count_depends_on_output_path", f"{g1.shape} vs {g2.shape}"):
+                        out.check(np.array_equal(g1, g2, equal_nan=True), "memory:returned_list_depends_on_output_path", lambda: f"first difference in field {C[int(np.argwhere(~((g1 == g2) | (np.isnan(g1) & np.isnan(g2))))[0][1])]}")
         if not ok:
             return out
     # the written text, tokenized independently
